@@ -746,6 +746,9 @@ def run(ctx):
         "C16: Python statements take no FPGA time (simulated time is paused and moves only by explicit steps); "
         "NotifierDelay is used from one thread")
     ctx.prove()
+    # the model functions, regenerated from the current source (fail-closed translator harness/pytr.py)
+    from . import c16_translate
+    c16_translate.obligation(ctx)
 
     sim = Sim()
     sim.install()
